@@ -23,6 +23,7 @@ TraceInit ==
                              spreads |-> ToSet(Traces[tid][1].defs[f].spreads)]]
   /\ ops = [k \in DOMAIN Traces[tid][1].ops |->
               [i \in DOMAIN Traces[tid][1].ops[k] |-> [T |-> Traces[tid][1].ops[k][i].T, fs |-> ToSet(Traces[tid][1].ops[k][i].fs)]]]
+  /\ nm = [f \in Frags |-> Traces[tid][1].nm[f]]
   /\ phase = "adding" /\ done = 0 /\ unpacked = {} /\ mixins = {} /\ opBases = <<>>
   /\ names = {} /\ deps = <<>> /\ order = <<>> /\ module = {}
 
@@ -36,6 +37,7 @@ T_Accumulators ==
 
 T_Generated ==
   /\ Has /\ Ev.e = "generated" /\ Take
+  /\ Traces[tid][l - 1].e = "accumulators"          \* the accumulators are observed (and compared) before generation
   /\ GenerateFragments
   /\ order' = Ev.order
   /\ {<<Ev.frag_bases[j][1], ToSet(Ev.frag_bases[j][2])>> : j \in DOMAIN Ev.frag_bases} = {<<f, deps'[f]>> : f \in module'}
